@@ -172,7 +172,7 @@ CHECKS["C13"] = ("model_checking",
     "counterexamples of D8 (token wait not raced against the permit: MC_Server_pinned, MC_ServerSteps_pinned) and of D14 (a "
     "connection accepted during revocation keeps a permit that is never revoked: MC_ServerSteps_subpermit violates "
     "AtMostOneMore). Binding: each real run ends with revocation at whatever phase its random history reached; the hook "
-    "log must show listener release before the stop signal, the harness must receive the signal within 5 s, a late connect "
+    "log must show listener release before the stop signal, a connect made by the waker of the signal's receiver (inside send() itself) must be refused, the harness must receive the signal within 5 s, a late connect "
     "must be refused, every connection still open is probed with up to three further requests of which at most one may be "
     "read (and none if its last look at the permit came after the revocation), and handlers running at revocation must "
     "have their response written. permit-race: six accept loops share one permit and a spinning thread revokes it the "
